@@ -51,21 +51,32 @@ CaseC(e, pre, post) ==
      \o KindC(e, pre, post, v.k)
 
 ---------------------------------------------------------------------------
+PadOf(m, n, width) ==
+  CASE m = "ljust" -> PadLJust(n, width)
+    [] m \in {"rjust", "zfill"} -> PadRJust(n, width)
+    [] m = "center" -> PadCenter(n, width)
+
+PadSegs(r, n, pad, f, ext) ==
+  << IF ext THEN <<"lit", Rep(f, pad[1]), "at", r, 0>> ELSE <<"lit", Rep(f, pad[1]), "none", 0, 0>>,
+     <<"reg", r, 0, n>>,
+     IF ext THEN <<"lit", Rep(f, pad[2]), "at", r, n - 1>> ELSE <<"lit", Rep(f, pad[2]), "none", 0, 0>> >>
+
+StripSegs(r, t, m, charsOpt) ==
+  LET chars == IF charsOpt = << >> THEN DefaultStripSet ELSE charsOpt[1]
+      rg == StripRange(t, chars, m \in {"strip", "lstrip"}, m \in {"strip", "rstrip"})
+  IN << <<"reg", r, rg[1], rg[2]>> >>
+
 PadC(e, pre, post) ==
   LET v == pre[e.r] n == Len(v.t)
       fillOk == Len(e.a.fill) = 1
-      pad == CASE e.a.m = "ljust" -> PadLJust(n, e.a.width)
-               [] e.a.m \in {"rjust", "zfill"} -> PadRJust(n, e.a.width)
-               [] e.a.m = "center" -> PadCenter(n, e.a.width)
+      pad == PadOf(e.a.m, n, e.a.width)
   IN Cl("C12.bad_fill_rejected", ~fillOk, ~fillOk => e.out \in {"raise:ValueError", "raise:TypeError"})
   \o Cl("C12.defined", fillOk, fillOk => e.out = "ok")
   \o IF ~HasResult(e) \/ ~fillOk THEN None ELSE
      LET w == ResultOf(e, post)
          f == e.a.fill[1]
          ext == e.a.extend = 1
-         segs == << IF ext THEN <<"lit", Rep(f, pad[1]), "at", e.r, 0>> ELSE <<"lit", Rep(f, pad[1]), "none", 0, 0>>,
-                    <<"reg", e.r, 0, n>>,
-                    IF ext THEN <<"lit", Rep(f, pad[2]), "at", e.r, n - 1>> ELSE <<"lit", Rep(f, pad[2]), "none", 0, 0>> >>
+         segs == PadSegs(e.r, n, pad, f, ext)
      IN Cl("C12.text", pad # <<0, 0>>, TextIs(w, segs, pre))
      \o Cl("C10.text", PyOk(e), PyOk(e) => w.t = PyText(e))
      \o Cl("C12.original_keeps_sty", HasStyle(v), StyIsOn(w, segs, pre, pad[1] + 1, pad[1] + n))
@@ -76,9 +87,8 @@ PadC(e, pre, post) ==
 ---------------------------------------------------------------------------
 StripC(e, pre, post) ==
   LET v == pre[e.r]
-      chars == IF e.a.chars = << >> THEN DefaultStripSet ELSE e.a.chars[1]
-      rg == StripRange(v.t, chars, e.a.m \in {"strip", "lstrip"}, e.a.m \in {"strip", "rstrip"})
-      segs == << <<"reg", e.r, rg[1], rg[2]>> >>
+      segs == StripSegs(e.r, v.t, e.a.m, e.a.chars)
+      rg == <<segs[1][3], segs[1][4]>>
   IN OutcomeLikeStr(e, FALSE)
   \o IF ~HasResult(e) THEN None ELSE
      LET w == ResultOf(e, post) IN
